@@ -229,3 +229,15 @@ claim("C16",
       "timecode zero or later, closed or unterminated; paint-on bursts of 1-3 rows.",
       "captions sharing a start time are treated as one display state; simulate_roll_up default",
       "DESIGN.md 3/C16")
+claim("C17",
+      "Hypothesis caption sets over the basic character table with cue spacing derived from a "
+      "dry run of the writer; output checked lexically and byte-wise, decoded with the "
+      "independent CEA-608 decoder and clock, and re-read with SCCReader (round trip)",
+      "Generated-input search: 5k (thorough 200k) sets of 1-5 captions, 1-4 lines of 1-80 "
+      "characters (words up to 40 characters, hyphenated words, lines of exactly 31-33 "
+      "columns), spacing from just-feasible (slack 0-5 frames) to sparse: header and line "
+      "syntax, odd parity of every byte, PAC rows 1-15, rows <= 32 columns broken only at "
+      "spaces / hyphens / inside over-long tokens, non-decreasing non-overlapping lines, "
+      "visibility within three frames of the start, same words after SCCReader.",
+      "trusts vf/ref/cea608.py; hyphen breaks accepted (textwrap semantics)",
+      "DESIGN.md 3/C17")
